@@ -1,4 +1,5 @@
 """C11 — -jN gives exactly the serial result for every tree, worker count and schedule."""
+import itertools
 import os
 import random
 import re
@@ -247,7 +248,7 @@ def run(ctx):
                 fail("parallel-totals-differ", "%s: exit %d summary %s; serial: exit %d summary %s" % (case, rc, summ, rrc, rsum), case)
             table.append({"case": case, "exit": rc, "summary": summ})
     # ---- mode options in combination: what the controller was told, every worker is told
-    for opts in (["--brp", "--check"], ["--brp"], ["--brp", "--check", "-v"]):
+    for opts in [[o for o, on in zip(("--brp", "--check", "-v"), bits) if on] for bits in itertools.product([False, True], repeat=3) if any(bits)]:
         rrc, rsum, rstate, _ = one_run(seed, 60, opts, build_root=True)
         runs += 1
         for n in (1, 3):
